@@ -106,6 +106,23 @@ def run(ctx):
             cex.append({'key': 'c17:' + t[0].replace('\n', ' '), 'what': 'prefix property fails: ' + json.dumps(v), 'input': {'rules': p, 'texts': t, 'H': H}})
         elif 'ok' in r and r['ok'].get(H):
             nontriv.add(t[0])
+    # long runs (7 solving steps) of programs with few answer sets: what only shows from the fourth or fifth step on
+    HL = 6
+    longp = []
+    for _ in range(60 if ctx.quick else 200):
+        p = [r for r in past_program(rng) if r['head'][0] != 'choice'][:3]
+        p.insert(0, {'part': rng.choice(['always', 'dynamic', 'always']), 'head': ('choice', ['a']), 'body': []})
+        if rng.random() < 0.7:
+            p.append({'part': 'dynamic', 'head': ('norm', rng.choice(['b', 'c']), 0), 'body': [past_lit(rng, ['a', 'b'])]})
+        longp.append(p)
+    linputs = [[lang.prog_txt(p)] for p in longp]
+    for p, t, r in zip(longp, linputs, meta.answer_sets(ctx, linputs, HL, timeout=60)):
+        v = prefix_violation(r, HL)
+        if v:
+            cex.append({'key': 'c17:' + t[0].replace('\n', ' '), 'what': 'prefix property fails: ' + json.dumps(v), 'input': {'rules': p, 'texts': t, 'H': HL}})
+        elif 'ok' in r and r['ok'].get(HL):
+            nontriv.add(t[0])
+    inputs = inputs + linputs
     exs = examples()
     nex = 0
     for name, texts, eh in exs:
@@ -117,7 +134,7 @@ def run(ctx):
         elif 'ok' in r and r['ok'].get(eh):
             nontriv.add(name)
     cov = {'evaluations': len(inputs) + nex, 'distinct_nontrivial': len(nontriv),
-           'rule': 'random past-only programs (1-4 rules + choice generator; past atoms, _p, &initial, &tel bodies over past operators only) and %d shipped examples without their final '
+           'rule': 'random past-only programs (1-4 rules + choice generator; past atoms, _p, &initial, &tel bodies over past operators only; a share of them with one free atom per state run for 7 steps) and %d shipped examples without their final '
                    'part; horizons 0..%d of one incremental run; every answer set at h+1 is cut to its first h+1 states and looked up among the answer sets at h; non-trivial = program '
                    'with at least one answer set at the largest horizon' % (nex, H),
            'answer_sets_checked': sum(sum(len(v) for v in r['ok'].values()) for r in res if 'ok' in r),
